@@ -19,6 +19,7 @@
    Within 1..11 septets these are exactly: 7 septets; 8 septets ending in CR.  Both are refuted below.
    For the decoded TEXT of an alphanumeric address there is additionally D16 (code 0x09), stated as the
    hypothesis [~ In 9 ss] of C19_address_text_is_standard. *)
+From V Require Import Model.TpduReaderRun Proofs.TpduReaderSpec.
 From V Require Import Model.TpduRun Spec.Gsm0340 Gen.SmsOctets Proofs.SmsOctetTables Proofs.TpduAlnum Proofs.TpduRoundtrip Proofs.TpduFlags.
 Open Scope N_scope.
 
@@ -35,6 +36,33 @@ Theorem C19_submit_roundtrip :
     submit_wf t -> addr_ok (s_da t) ->
     sms_remarshal (layout_submit t) = Ok (layout_submit t).
 Proof. exact submit_roundtrip. Qed.
+
+(* ---- behind every reader.  [sms_unmarshal_reader data sched eofd] is the decoder written over the bufio.Reader model
+   (Model/TpduReader.v) on a reader that hands out the octets in pieces of the sizes [sched] (then one octet per call;
+   any list: every way of chunking), io.EOF with the last piece iff [eofd]; [sms_remarshal_reader] re-encodes what it
+   decoded.  On the TPDUs of this property they ARE [sms_unmarshal] / [sms_remarshal] (C18_reader_independence; a
+   well-formed SC address is at most 11 octets long, which is all getType's Peek needs), so every theorem of this file
+   about the decoded values and flags holds behind every such reader, and the round trip is stated outright. *)
+Theorem C19_deliver_any_reader :
+  forall (t : s_deliver) (sched : list nat) (eofd : bool), deliver_wf t ->
+    sms_unmarshal_reader (layout_deliver t) sched eofd = sms_unmarshal (layout_deliver t) /\
+    sms_remarshal_reader (layout_deliver t) sched eofd = sms_remarshal (layout_deliver t).
+Proof. exact deliver_decode_any_reader. Qed.
+Theorem C19_submit_any_reader :
+  forall (t : s_submit) (sched : list nat) (eofd : bool),
+    sms_unmarshal_reader (layout_submit t) sched eofd = sms_unmarshal (layout_submit t) /\
+    sms_remarshal_reader (layout_submit t) sched eofd = sms_remarshal (layout_submit t).
+Proof. exact submit_decode_any_reader. Qed.
+Theorem C19_deliver_roundtrip_any_reader :
+  forall (t : s_deliver) (sched : list nat) (eofd : bool),
+    deliver_wf t -> addr_ok (d_oa t) ->
+    sms_remarshal_reader (layout_deliver t) sched eofd = Ok (layout_deliver t).
+Proof. exact deliver_roundtrip_any_reader. Qed.
+Theorem C19_submit_roundtrip_any_reader :
+  forall (t : s_submit) (sched : list nat) (eofd : bool),
+    submit_wf t -> addr_ok (s_da t) ->
+    sms_remarshal_reader (layout_submit t) sched eofd = Ok (layout_submit t).
+Proof. exact submit_roundtrip_any_reader. Qed.
 
 (* ---- the decoded structure carries the standard's values *)
 Theorem C19_deliver_values :
